@@ -53,6 +53,8 @@ type EDIDoc struct {
 	Conf     EDIConf    `json:"conf"`
 	Segs     []EDISeg   `json:"segs"`
 	Trailing string     `json:"trailing,omitempty"` // CR/LF run after the final segment delimiter (ignored by documentation)
+	// NoFinalDelim leaves the last segment without its segment delimiter (the input ends there): it is still a segment.
+	NoFinalDelim bool `json:"no_final_delim,omitempty"`
 	Noise    []EDINoise `json:"noise,omitempty"`
 }
 
@@ -285,6 +287,8 @@ func DrawEDIDoc(t *rapid.T, c EDIConf, sameName bool) EDIDoc {
 	}
 	if rapid.IntRange(0, 3).Draw(t, "trailing") == 0 {
 		d.Trailing = rapid.SampledFrom([]string{"\n", "\r\n", "\n\n", "\r"}).Draw(t, "trailingRun")
+	} else if len(d.Segs) > 0 && !d.Segs[len(d.Segs)-1].StrayCR && rapid.IntRange(0, 3).Draw(t, "noFinalDelim") == 0 {
+		d.NoFinalDelim = true
 	}
 	if c.IgnoreCRLF {
 		n := rapid.IntRange(0, 6).Draw(t, "nNoise")
@@ -406,7 +410,7 @@ func (d EDIDoc) Render() ([]byte, []EDIRenderedSeg) {
 	c := d.Conf
 	var all strings.Builder
 	var out []EDIRenderedSeg
-	for _, s := range d.Segs {
+	for si, s := range d.Segs {
 		for i := 0; i < s.BlankBefore; i++ {
 			if c.Seg == "\n" && i%2 == 1 {
 				all.WriteString("\r")
@@ -437,7 +441,9 @@ func (d EDIDoc) Render() ([]byte, []EDIRenderedSeg) {
 		if s.StrayCR {
 			sb.WriteString("\r")
 		}
-		sb.WriteString(c.Seg)
+		if !(d.NoFinalDelim && si == len(d.Segs)-1) {
+			sb.WriteString(c.Seg)
+		}
 		rs.Raw = sb.String()
 		all.WriteString(rs.Raw)
 		out = append(out, rs)
